@@ -98,14 +98,27 @@ def f1_f3_f5(prog, ctx):
     rd = ReachingDefs(merged)
     succ = {(b, i2): s2 for (b, i2, s2) in cfg.edges()}
 
+    from sa.cond import norm_cond
+
+    def split(e, blk, node, others, lit=None):
+        """a conditional expression contributes each arm under its own condition"""
+        e2 = e.strip()
+        if e2.k == "ConditionalOperator" and lit is None:
+            g = norm_cond(e2.child("cond"))
+            return split(e2.child("then"), blk, node, others, g) + split(e2.child("else"), blk, node, others, g.negated())
+        return [(render(e2), blk, node, others, lit)]
+
     def sources(c, slot):
         a = c.call_args()[pn.index(slot)].strip()
         if a.k == "DeclRefExpr" and a.j.get("dk") == "local":
             ds = rd.reaching(a.j["name"], c)
             if ds and all(d.rhs is not None for d in ds):
                 blocks = [cfg.block_of(d.node) for d in ds]
-                return [(render(d.rhs), cfg.block_of(d.node), d.node, [x for x in blocks if x != cfg.block_of(d.node)]) for d in ds]
-        return [(render(a), cfg.block_of(c), c, [])]
+                out = []
+                for d in ds:
+                    out += split(d.rhs, cfg.block_of(d.node), d.node, [x for x in blocks if x != cfg.block_of(d.node)])
+                return out
+        return split(a, cfg.block_of(c), c, [])
 
     def is_guard(lit, pol):
         return lit is not None and lit.kind == "lt" and lit.pol == pol and render(lit.rhs) == "(*result)->conf_count" and lit.lhs.const_value() == 0
@@ -123,7 +136,7 @@ def f1_f3_f5(prog, ctx):
     bad = None
     for slot, (own_t, glob_t) in want.items():
         srcs = [x for c in calls for x in sources(c, slot)]
-        texts = sorted(t for t, _, _, _ in srcs)
+        texts = sorted(t for t, _, _, _, _ in srcs)
         if texts != sorted([own_t, glob_t]):
             if slot == "conf_count" and own_t not in texts:
                 ctx.fail("F3", "own list is passed with its own count", calls[0].where, "count slot receives %s" % texts, key="pair-count")
@@ -131,7 +144,13 @@ def f1_f3_f5(prog, ctx):
                 ctx.fail("F3", "readConfigWithCallback chooses the directory pair", calls[0].where, "%s slot receives %s" % (slot, texts), key="pair-calls")
             bad = True
             continue
-        for t, blk, node, others in srcs:
+        for t, blk, node, others, clit in srcs:
+            if clit is not None:
+                # an arm of a conditional expression: its own condition is the guard
+                if not is_guard(clit, t == own_t):
+                    bad = bad or (node, ("%s is not chosen under `(*result)->conf_count > 0` (condition: %s)" % (own_t, clit)) if t == own_t else
+                                  ("the process-wide %s is used although the object carries its own list (condition: %s)" % (glob_t, clit)))
+                continue
             if t == own_t:
                 ok, cut = cfg.all_paths_cut(blk, lambda lit, b, i2: is_guard(lit, True))
                 if not (ok and cut):
@@ -139,7 +158,7 @@ def f1_f3_f5(prog, ctx):
             else:
                 # the process-wide value arrives at its call only over the negative edge (or is replaced on the way)
                 for c in calls:
-                    if any(x[2] is node for x in sources(c, slot)):
+                    if any(x[2] is node and x[4] is None for x in sources(c, slot)):
                         ok, cut = cfg.all_paths_cut(cfg.block_of(c), lambda lit, b, i2: is_guard(lit, False) or succ.get((b, i2)) in others, start=(None if node is c else blk))
                         if not (ok and cut):
                             bad = bad or (node, "the process-wide %s is used although the object carries its own list" % glob_t)
